@@ -4,7 +4,7 @@
 //                       back as the engine's total force in the same-step convention
 //   hidej name          enable the feature hide_Jacobian_force of a variable, exactly as the ABF option
 //                       hideJacobian does (colvarbias_abf.cpp: colvars[i]->enable(f_cv_hide_Jacobian))
-//   rot name            print "ROT name i type q0 q1 q2 q3 jd" for every component of the variable: the optimal rotation
+//   rot name            print "ROT name i type q0 q1 q2 q3 jd nfit fit.." for every component of the variable: the optimal rotation
 //                       quaternion of its first atom group and its Jacobian derivative (inputs of the model for rotated frames)
 //   fj                  print "FJ name <hex>" (Jacobian force kT*jd held by each variable) and
 //                       "FOLD name <hex>" (f_old), read from the variable's private members
@@ -62,7 +62,16 @@ struct c07_session : public vsim_session {
           cvm::quaternion const q = c->cvcs[i]->atom_groups.size() ? c->cvcs[i]->atom_groups[0]->rot.q : cvm::quaternion(1.0, 0.0, 0.0, 0.0);
           o << "ROT " << c->name << " " << i << " " << c->cvcs[i]->function_type();
           o << " " << vs_hex(q.q0) << " " << vs_hex(q.q1) << " " << vs_hex(q.q2) << " " << vs_hex(q.q3)
-            << " " << vs_hex(c->cvcs[i]->Jacobian_derivative().real_value) << "\n";
+            << " " << vs_hex(c->cvcs[i]->Jacobian_derivative().real_value);
+          // derivatives of the fit that the applied forces contain (when the group computes them)
+          if (c->cvcs[i]->atom_groups.size() && c->cvcs[i]->atom_groups[0]->is_enabled(colvardeps::f_ag_fit_gradients)) {
+            std::vector<cvm::atom_pos> const &fg = c->cvcs[i]->atom_groups[0]->fit_gradients;
+            o << " " << fg.size();
+            for (size_t k = 0; k < fg.size(); k++) o << " " << vs_hex(fg[k].x) << " " << vs_hex(fg[k].y) << " " << vs_hex(fg[k].z);
+          } else {
+            o << " 0";
+          }
+          o << "\n";
         }
       }
       return true;
